@@ -6,6 +6,7 @@ CONSTANTS
   Nesting = TRUE
   TaskAllow = FALSE
   AtomicLaunch = FALSE
+  ErrFirst = TRUE
   HookKinds = {"none"}
 SPECIFICATION Spec
 INVARIANTS CommandsAfterDependencies StopsAtFailure FinalOK RunOnlyWhileStageRunning UpBeforeUse DownAfterAll OneUpAtATime NothingRunsAtReturn NoDoubleLaunch
